@@ -125,18 +125,37 @@ def r_copy_scale(ctx, prog, units=None):
     ctx.rule(R, 'every block copy whose destination is an array of multi-byte elements has a byte count that is a multiple of the '
              'element size (a count of elements passed as a count of bytes copies only a fraction of the array)', floor=1)
     n = 0
+    reach = None
+    if units == 'api':
+        from .rules_own import api_reachable
+        reach = set(id(g) for g in api_reachable(prog))
     for f in prog.all_functions:
-        if units is not None and f.unit.name not in units:
+        if reach is not None:
+            if id(f) not in reach:
+                continue
+        elif units is not None and f.unit.name not in units:
             continue
         tt = Terms(f)
         for c in f.calls():
+            if c.callee in ('memset', 'bzero'):
+                # filling an array of multi-byte elements: same obligation on the byte count
+                dst = c.args[0]
+                ln = c.args[1] if c.callee == 'bzero' else c.args[2]
+                s = _pointee_size(dst)
+                if s is None or s == 1:
+                    continue
+                n += 1
+                t = tt.term(ln)
+                ctx.instance(R, _multiple_of(t, s), c, 'fill:%s:%s' % (f.name, c.loc().split(':')[-1]),
+                             '%s fills %s bytes of an array of %d-byte elements: the length is not scaled by the element size' %
+                             (f.name, show(t)[:40], s))
+                continue
             if c.callee not in ('memcpy', 'memmove', 'bcopy'):
                 continue
             dst, src, ln = (c.args[1], c.args[0], c.args[2]) if c.callee == 'bcopy' else (c.args[0], c.args[1], c.args[2])
             s = _pointee_size(dst)
             s2 = _pointee_size(src)
             if s is None or s2 is None or s != s2:
-                n += 1 if (s is None and s2 is None) else 0
                 continue
             n += 1
             t = tt.term(ln)
@@ -144,4 +163,4 @@ def r_copy_scale(ctx, prog, units=None):
                          '%s copies %s bytes between arrays of %d-byte elements: the length is not scaled by the element size' %
                          (f.name, show(t)[:40], s))
     if n == 0:
-        ctx.ok(R, None, 'copy:none', 'no block copy in scope')
+        ctx.ok(R, None, 'copy:none', 'no block copy or fill of an array of multi-byte elements in scope')
